@@ -691,11 +691,14 @@ func New() Beacon {
 	}
 }
 
-// GetAll returns all the treasures in the beacon
+// GetAll returns all the treasures in the beacon.
+// The result is a snapshot taken under the read lock: callers iterate it after the lock is
+// released, so handing out the live map would let a concurrent Add/Delete hit Go's fatal
+// "concurrent map iteration and map write".
 func (b *beacon) GetAll() map[string]treasure.Treasure {
 	b.mu.RLock()
 	defer b.mu.RUnlock()
-	return b.treasuresByKeys
+	return maps.Clone(b.treasuresByKeys)
 }
 
 type IterationType int
